@@ -19,7 +19,7 @@
     NumOps has no power function.  Where the code calls std::pow (SmoothSphereHalfSpaceForce)
     the model takes the power function [pw] as an argument: the theorems instantiate it with
     [Rpower], the OCaml driver with [Float.pow].  Where the power is taken outside the anchored
-    files (HuntCrossleyForceImpl::Parameters and ContactMaterial store stiffness^(2/3)) the model
+    files (HuntCrossleyForceImpl's per-surface record and ContactMaterial store stiffness^(2/3)) the model
     takes the stored value as its input.
 
     No proofs in this file. *)
@@ -70,7 +70,7 @@ Definition hollars_mu (us ud uv vt vslip:T) : T :=
   nmin vrel 1 * (ud + two * (us - ud) / (1 + vrel * vrel)) + uv * vslip.
 
 (** ** HuntCrossleyForce *)
-(** per-surface parameters as stored by HuntCrossleyForceImpl::Parameters: [h_k] = stiffness^(2/3) *)
+(** per-surface material data as stored by HuntCrossleyForceImpl: [h_k] = stiffness^(2/3) *)
 Record hcpar := mkHc { h_k : T; h_c : T; h_us : T; h_ud : T; h_uv : T }.
 Definition hcpar0 : hcpar := mkHc 1 0 0 0 0.
 (** u = 2*u1*u2/(u1+u2) unless both are zero *)
